@@ -32,6 +32,8 @@ type outcome struct {
 	msg      string
 }
 
+var hungGoroutines int
+
 // guard runs f on its own goroutine with recover and a deadline.
 func guard(d time.Duration, f func()) outcome {
 	ch := make(chan outcome, 1)
@@ -48,6 +50,7 @@ func guard(d time.Duration, f func()) outcome {
 	case o := <-ch:
 		return o
 	case <-time.After(d):
+		hungGoroutines++
 		return outcome{hung: true}
 	}
 }
